@@ -35,6 +35,14 @@ def lit(f) -> str:
     return s if f >= 0 else "-(%s)" % s
 
 
+def sum_product(src: str) -> Fraction:
+    """exact value of a tiny expression made of real literals and '*' (reference arithmetic on decimal strings)"""
+    v = Fraction(1)
+    for part in src.split("*"):
+        v *= Fraction(part.strip().replace("_", ""))
+    return v
+
+
 def constant_types():
     out = [("bool", ["bool"])]
     for n in range(1, 65):
@@ -53,7 +61,9 @@ def constant_types():
 
 
 STRINGS = [("''", ""), ("'a'", "a"), ('"z"', "z"), ("'ab'", "ab"), ("'é'", "é"), ("'\\u0000'", "\x00"), ("'\\u007f'", "\x7f"), ("'\\u0080'", "\x80"), ("'\\n'", "\n"), ("'€'", "€"), ("'\\ud800'", "\ud800"), ("'\\U0010ffff'", "\U0010ffff"),
-           ("'a\u00e9'", "a\u00e9"), ("'\u00e9a'", "\u00e9a"), ("'\u00e9a\u20ac'", "\u00e9a\u20ac"), ("'a\\u00e9'", "a\u00e9"), ("' '", " "), ("'\\t'", "\t"), ("'~'", "~"), ("'aa'", "aa")]
+           ("'a\u00e9'", "a\u00e9"), ("'\u00e9a'", "\u00e9a"), ("'\u00e9a\u20ac'", "\u00e9a\u20ac"), ("'a\\u00e9'", "a\u00e9"), ("' '", " "), ("'\\t'", "\t"), ("'~'", "~"), ("'aa'", "aa"),
+           # non-ASCII characters whose canonical (NFC) form is an ASCII character: still not ASCII string literals
+           ("'\\u212a'", "\u212a"), ("'\u212a'", "\u212a"), ("'\\u037e'", "\u037e"), ("'\u1fef'", "\u1fef"), ("'\\u212b'", "\u212b")]
 
 
 def initializers(desc):
@@ -75,6 +85,18 @@ def initializers(desc):
         if f not in seen:
             seen.add(f)
             out.append((lit(f), "q", f))
+    # the same kinds of values written as real literals (point and exponent notation, negative exponents): exact decimal values
+    for src in ("1e-1", "1.5e-3", "25e-2", "3E-1", "1e2", "0.1", "1e-1 * 10", "1e-1 * 100", "2.5e-1 * 4", "1_0.0", "1e0"):
+        out.append((src, "q", sum_product(src)))
+    if k == "float":
+        mxs = str(C.float_max(desc[1]).numerator)
+        out.append((mxs + "00000000000000000001e-20", "q", C.float_max(desc[1]) + Fraction(1, 10**20)))
+        out.append((mxs + "00000000000000000000e-20", "q", C.float_max(desc[1])))
+        out.append(("-" + mxs + "00000000000000000001e-20", "q", -C.float_max(desc[1]) - Fraction(1, 10**20)))
+    elif k in ("uint", "int"):
+        lo, hi = C.int_range(desc)
+        out.append(("%d0001e-4" % hi, "q", Fraction(hi * 10000 + 1, 10000)))
+        out.append(("%d0000e-4" % hi, "q", Fraction(hi)))
     out += [("true", "bool", True), ("false", "bool", False)]
     for src, s in STRINGS:
         out.append((src, "str", s))
